@@ -132,6 +132,14 @@ def availability(repo, rep):
             if "isnan" in unparse(n.value) and "[:, 0]" in unparse(n.value).replace("fp[:,0]", "fp[:, 0]"):
                 avail = n.targets[0].id
     if avail is None:
+        # loop form:  available = [];  for ip, ok in enumerate(~np.isnan(fp[:, 0])): if ok: available.append(ip)
+        for n in ast.walk(fi.node):
+            if isinstance(n, ast.For) and "isnan" in unparse(n.iter) and "[:, 0]" in unparse(n.iter).replace("[:,0]", "[:, 0]"):
+                apps = [c for c in ast.walk(n) if isinstance(c, ast.Call) and isinstance(c.func, ast.Attribute) and c.func.attr in ("append", "add")
+                        and isinstance(c.func.value, ast.Name)]
+                if apps:
+                    avail = apps[0].func.value.id
+    if avail is None:
         raise AnalysisError("match_consecutive_partitions: availability list not found")
     loops = [n for n in fi.node.body if isinstance(n, ast.For)]
     if not loops:
@@ -166,7 +174,8 @@ def availability(repo, rep):
     else:
         rep.ok("R-C19-2", f"{fi.file}:{filt[0].lineno} match_consecutive_partitions", unparse(filt[0]), "only still-available predecessors are candidates")
     # sorted by distance before taking the first
-    srt = [n for n in ast.walk(loop) if isinstance(n, ast.Call) and call_name(n) == "sorted"]
+    srt = [n for n in ast.walk(loop) if isinstance(n, ast.Call) and (call_name(n) == "sorted" or (isinstance(n.func, ast.Attribute) and n.func.attr == "sort"
+                                                                                          and isinstance(n.func.value, ast.Name)))]
     if not srt:
         rep.fail("R-C19-2", fi.file, loop.lineno, fi.qualname, "candidate ordering", "candidates are not sorted by distance before the first is taken")
     else:
